@@ -40,6 +40,23 @@ def expr(e, params, locals_):
     raise Unsupported("argument expression " + ast.unparse(e))
 
 
+def one_based_helper(tree, name):
+    """is `name(p, flag)` a module-level helper that returns p - 1 if flag else p ?"""
+    fn = next((n for n in tree.body if isinstance(n, ast.FunctionDef) and n.name == name), None)
+    if fn is None or len(fn.args.args) != 2 or fn.args.kwonlyargs or fn.args.vararg or fn.args.kwarg or fn.decorator_list:
+        return False
+    p, flag = (a.arg for a in fn.args.args)
+    body = [s for s in fn.body if not (isinstance(s, ast.Expr) and isinstance(s.value, ast.Constant))]
+    forms = [
+        [f"if {flag}:\n    return {p} - 1", f"return {p}"],
+        [f"if {flag}:\n    {p} -= 1", f"return {p}"],
+        [f"return {p} - 1 if {flag} else {p}"],
+        [f"if {flag}:\n    return {p} - 1\nelse:\n    return {p}"],
+        [f"if not {flag}:\n    return {p}", f"return {p} - 1"],
+    ]
+    return [ast.unparse(s) for s in body] in forms
+
+
 def main():
     out_dir = sys.argv[1]
     path = os.path.join(out_dir, "GenCli.v")
@@ -112,6 +129,12 @@ def main():
                         raise Unsupported("statement " + src[:60])
                 elif isinstance(st, ast.If) and src == "if one_based:\n    partition -= 1":
                     target.append("OneBasedAdjust")
+                elif src in ("partition = partition - 1 if one_based else partition", "partition -= 1 if one_based else 0", "partition -= int(one_based)"):
+                    target.append("OneBasedAdjust")
+                elif isinstance(st, ast.Assign) and ast.unparse(st.targets[0]) == "partition" and isinstance(st.value, ast.Call) \
+                        and isinstance(st.value.func, ast.Name) and [ast.unparse(a) for a in st.value.args] == ["partition", "one_based"] \
+                        and not st.value.keywords and one_based_helper(tree, st.value.func.id):
+                    target.append("OneBasedAdjust")
                 elif isinstance(st, ast.Assign) and ast.unparse(st.value) == "click.get_text_stream('stdout')":
                     locals_.add(st.targets[0].id)
                     target.append(f"StdoutStream {q(st.targets[0].id)}")
@@ -127,24 +150,80 @@ def main():
             pos = [expr(a, set(params), locals_) for a in call.args]
             kws = [(k.arg, expr(k.value, set(params), locals_)) for k in call.keywords]
             cmds.append((cname, used, params, pre, (ast.unparse(call.func), pos, kws), post))
-        # check_overwrite_dir skeleton
+        # check_overwrite_dir: evaluated symbolically for the eight combinations of (path exists, --force,
+        # confirmation given); any control-flow shape is fine as long as every statement is one of: a test on
+        # path.exists() / force, click.confirm(..., abort=True), <tmp> = path.with_suffix(...), os.rename(path, <tmp>),
+        # shutil.rmtree(<tmp>), return, logging
         cod = next(n for n in tree.body if isinstance(n, ast.FunctionDef) and n.name == "check_overwrite_dir")
-        body = [s for s in cod.body if not (isinstance(s, ast.Expr) and ast.unparse(s).startswith("logger."))]
-        ok = (
-            len(body) == 2 and ast.unparse(body[0]) == "path = pathlib.Path(path)" and isinstance(body[1], ast.If)
-            and ast.unparse(body[1].test) == "path.exists()" and not body[1].orelse
-        )
-        if ok:
-            inner = [s for s in body[1].body if not (isinstance(s, ast.Expr) and ast.unparse(s).startswith("logger."))]
-            ok = (
-                len(inner) == 4 and isinstance(inner[0], ast.If) and ast.unparse(inner[0].test) == "not force" and not inner[0].orelse
-                and len(inner[0].body) == 1 and ast.unparse(inner[0].body[0]).startswith("click.confirm(") and "abort=True" in ast.unparse(inner[0].body[0])
-                and ast.unparse(inner[1]).startswith("tmp_delete_path = path.with_suffix(")
-                and ast.unparse(inner[2]) == "os.rename(path, tmp_delete_path)"
-                and ast.unparse(inner[3]) == "shutil.rmtree(tmp_delete_path)"
-            )
-        if not ok:
-            raise Unsupported("check_overwrite_dir has an unrecognised shape")
+        if [a.arg for a in cod.args.args] != ["path", "force"]:
+            raise Unsupported("check_overwrite_dir has an unrecognised signature")
+
+        class Abort(Exception):
+            pass
+
+        class Done(Exception):
+            pass
+
+        def cod_cond(e, env):
+            t = ast.unparse(e)
+            if t == "path.exists()":
+                return env["E"]
+            if t == "force":
+                return env["F"]
+            if isinstance(e, ast.UnaryOp) and isinstance(e.op, ast.Not):
+                return not cod_cond(e.operand, env)
+            if isinstance(e, ast.BoolOp):
+                vals = [cod_cond(v, env) for v in e.values]
+                return all(vals) if isinstance(e.op, ast.And) else any(vals)
+            raise Unsupported("check_overwrite_dir: condition " + t[:60])
+
+        def cod_run(stmts, env, ops, tmps):
+            for st in stmts:
+                t = ast.unparse(st)
+                if isinstance(st, ast.Expr) and isinstance(st.value, ast.Constant):
+                    continue
+                if isinstance(st, ast.Expr) and t.startswith("logger."):
+                    continue
+                if t == "path = pathlib.Path(path)":
+                    continue
+                if isinstance(st, ast.If):
+                    cod_run(st.body if cod_cond(st.test, env) else st.orelse, env, ops, tmps)
+                    continue
+                if isinstance(st, ast.Return) and st.value is None:
+                    raise Done()
+                if isinstance(st, ast.Expr) and t.startswith("click.confirm(") and "abort=True" in t:
+                    if not env["C"]:
+                        raise Abort()
+                    continue
+                if isinstance(st, ast.Assign) and len(st.targets) == 1 and isinstance(st.targets[0], ast.Name) \
+                        and ast.unparse(st.value).startswith("path.with_suffix("):
+                    tmps.add(st.targets[0].id)
+                    continue
+                if isinstance(st, ast.Expr) and isinstance(st.value, ast.Call) and ast.unparse(st.value.func) == "os.rename" \
+                        and len(st.value.args) == 2 and ast.unparse(st.value.args[0]) == "path" and ast.unparse(st.value.args[1]) in tmps:
+                    ops.append("Rename")
+                    continue
+                if isinstance(st, ast.Expr) and isinstance(st.value, ast.Call) and ast.unparse(st.value.func) == "shutil.rmtree" \
+                        and len(st.value.args) == 1 and ast.unparse(st.value.args[0]) in tmps:
+                    ops.append("Rmtree")
+                    continue
+                raise Unsupported("check_overwrite_dir: statement " + t[:60])
+
+        cod_table = {}
+        for E in (False, True):
+            for F in (False, True):
+                for C in (False, True):
+                    ops, tmps = [], set()
+                    try:
+                        cod_run(cod.body, dict(E=E, F=F, C=C), ops, tmps)
+                        res = ops
+                    except Done:
+                        res = ops
+                    except Abort:
+                        res = None if not ops else "PARTIAL"
+                    if res == "PARTIAL":
+                        raise Unsupported("check_overwrite_dir: confirmation asked after a file-system operation")
+                    cod_table[(E, F, C)] = res
         L = []
         L.append(f"(* GENERATED by translator/cli2coq.py from {REPO}/bio2zarr/cli.py -- do not edit *)")
         L.append("From Coq Require Import String List Bool.\nImport ListNotations.\nOpen Scope string_scope.\n")
@@ -174,8 +253,13 @@ def main():
         L.append("(* check_overwrite_dir(path, force): if path.exists(): if not force: click.confirm(..., abort=True);")
         L.append("   os.rename(path, <tmp>); shutil.rmtree(<tmp>) *)")
         L.append("Inductive fsop := Rename | Rmtree.")
+        L.append("(* outcome for each of the eight cases, obtained by evaluating the source's statements; None = aborted *)")
         L.append("Definition check_overwrite_dir (exists_ force confirmed : bool) : option (list fsop) :=")
-        L.append("  if exists_ then (if negb force then (if confirmed then Some [Rename; Rmtree] else None) else Some [Rename; Rmtree]) else Some [].")
+        L.append("  match exists_, force, confirmed with")
+        for (E, F, C), res in sorted(cod_table.items()):
+            b = lambda x: "true" if x else "false"  # noqa: E731
+            L.append("  | %s, %s, %s => %s" % (b(E), b(F), b(C), "None" if res is None else "Some [" + "; ".join(res) + "]"))
+        L.append("  end.")
         text = "\n".join(L) + "\n"
         status = {"GenCli": "ok"}
         # the same table for the harness (what the mocked-library runs are compared with)
